@@ -450,12 +450,44 @@ def sinv(a):
     return X.view(SymArr)
 
 
+def _cofactor_inverse_times_det(a):
+    """adj(A) for n <= 3 (so that A^-1 = adj(A) / det A)."""
+    n = a.shape[0]
+    adj = _np.empty((n, n), dtype=object)
+    if n == 1:
+        adj[0, 0] = 1
+        return adj
+    for i in range(n):
+        for j in range(n):
+            rows = [r for r in range(n) if r != j]
+            cols = [c for c in range(n) if c != i]
+            minor = a[_np.ix_(rows, cols)]
+            m = sdet(minor)
+            adj[i, j] = m if (i + j) % 2 == 0 else -m
+    return adj
+
+
 def ssolve(a, b):
-    """Contract stub: fresh X with A X = B (det A != 0)."""
+    """n <= 3: the exact solution adj(A) b / det A under the assumption det A != 0 (the
+    documented contract of a successful np.linalg.solve).  Larger systems: contract stub with
+    fresh unknowns X and the assumption A X = B."""
     a = _np.asarray(a, dtype=object)
     b = _np.asarray(b, dtype=object)
     n = a.shape[0]
     ctx = sym.cur()
+    if n <= 3:
+        d = sdet(a)
+        ctx.assume(lift(d) != 0)
+        adj = _cofactor_inverse_times_det(a)
+        bb = b.reshape(n, -1)
+        X = _np.empty(bb.shape, dtype=object)
+        for i in range(n):
+            for j in range(bb.shape[1]):
+                acc = adj[i, 0] * bb[0, j]
+                for k in range(1, n):
+                    acc = acc + adj[i, k] * bb[k, j]
+                X[i, j] = acc / d
+        return X.reshape(b.shape).view(SymArr)
     X = _np.empty(b.shape, dtype=object)
     for idx in _np.ndindex(*b.shape):
         X[idx] = ctx.fresh_real("sol")
@@ -839,10 +871,6 @@ class NPProxy:
             return a ** b
         return _wrap(_np.power(a, b, *r, **k))
 
-    def float64(self, x=0.0):
-        if isinstance(x, SReal):
-            return x
-        return _np.float64(x)
 
 
 npproxy = NPProxy()
